@@ -144,12 +144,18 @@ Init == /\ \E cl \in Classes : game = cl[1] /\ lang = cl[2]
         /\ L \in Configs
         /\ depth = 0
 
-Step(evs) == /\ depth < MaxDepth
-             /\ \E ev \in evs : \E o \in Outcomes(L, Cfg(game), lang, ev, CandM(Cfg(game), ev)) : L' = o.st
-             /\ depth' = depth + 1
-             /\ UNCHANGED <<game, lang>>
-DoWrite == Step(WriteEvents)
-DoCreateDir == Step(CreateEvents)
+\* the model walks on with a reduced alphabet (the laws below quantify over the full one in every state)
+StepWrites == { ev \in WriteEvents : ev.data = P3 /\ ev.p \in { Pth(<<m, fbin>>), Pth(<<m, glz>>), Pth(<<m, hcmp>>), Pth(<<q>>),
+                                                                Pth(<<m, fbin, xx>>), Pth(<<a, z>>) } }
+StepCreates == { ev \in CreateEvents : ev.p \in { Pth(<<q, xx>>), Pth(<<m, fbin>>), PthT(<<d, e>>) } }
+DoWrite == /\ depth < MaxDepth
+           /\ \E ev \in StepWrites : \E o \in Outcomes(L, Cfg(game), lang, ev, CandM(Cfg(game), ev)) : L' = o.st
+           /\ depth' = depth + 1
+           /\ UNCHANGED <<game, lang>>
+DoCreateDir == /\ depth < MaxDepth
+               /\ \E ev \in StepCreates : \E o \in Outcomes(L, Cfg(game), lang, ev, {}) : L' = o.st
+               /\ depth' = depth + 1
+               /\ UNCHANGED <<game, lang>>
 Next == DoWrite \/ DoCreateDir
 Spec == Init /\ [][Next]_vars
 
@@ -198,11 +204,16 @@ QueryLaws ==
     /\ \A op \in QueryOps : \A o \in OutcomesI(I, L, cfgOf, lang, Ev(op, P, loc, <<>>, NoGlob), {}) : o.st = L
     /\ \A A \in OkActuals(P, loc) :
          LET r == ReadAt(I, L, cfgOf, P, A)
-             fe == LayersWith(I, L, A, {"file"}) # {}
-             de == LayersWith(I, L, A, {"dir"}) # {}
-             ex == LayersWith(I, L, A, {"file", "dir"}) # {}
-             rs == ResolveAt(I, L, A)
+             Q(op) == (CHOOSE o \in ExistsOutcomesI(I, L, cfgOf, lang, AsReq(A), FALSE, op) : TRUE).res
+             fe == Q("file_exists").v
+             de == Q("directory_exists").v
+             ex == Q("exists").v
+             rs == (CHOOSE o \in ResolveOutcomesI(I, L, cfgOf, lang, AsReq(A), FALSE) : TRUE).res
          IN /\ ReadIsTopmostFile(I, L, cfgOf, P, A, r)
+            /\ \A op \in {"exists", "file_exists", "directory_exists"} :
+                 /\ Cardinality(ExistsOutcomesI(I, L, cfgOf, lang, AsReq(A), FALSE, op)) = 1
+                 /\ Q(op).ok
+            /\ ex <=> \E j \in 1..Len(L) : Kind(I, L[j], A) # "none"
             \* QueriesAgree
             /\ fe <=> ~(~r.ok /\ r.e = "notfound")
             /\ ex <=> rs.ok
@@ -243,8 +254,25 @@ ListLaws ==
            = UNION { IF act.ok THEN ListOutcomesI(I, L, cfgOf, lang, AsReq(act.p), FALSE, g)
                      ELSE { [res |-> Err("loc", <<>>), st |-> L] } : act \in Actuals(cfgOf, lang, P, loc) }
 
+\* --- C14 (filesystem clause): every operation applies the localisation mapping and nothing else - a localized
+\* call is the same call on the mapped path.  (Under rule "req" the compressed-suffix decision looks at the
+\* requested name, which is the one open difference; the law is stated for rule "act".)
+Twin(ev, A) == [ev EXCEPT !.p = AsReq(A), !.loc = FALSE]
+TwinLaws ==
+  \A ev \in { ev \in ModelEvents : ev.loc } : \A I \in { I \in Interps : I.rule = "act" } :
+    LET acts == Actuals(cfgOf, lang, ev.p, TRUE)
+        cand == IF ev.op = "write" THEN CandM(cfgOf, ev) ELSE {}
+        failing == CASE ev.op \in {"read", "list", "subdirectories", "write", "create_dir"} -> { [res |-> Err("loc", <<>>), st |-> L] }
+                     [] ev.op \in {"exists", "file_exists", "directory_exists"} -> { [res |-> Err("loc", FALSE), st |-> L] }
+                     [] ev.op = "resolve" -> { [res |-> Err("none", NoResolve), st |-> L] }
+    IN OutcomesI(I, L, cfgOf, lang, ev, cand)
+         = UNION { IF act.ok THEN OutcomesI(I, L, cfgOf, lang, Twin(ev, act.p), cand) ELSE failing : act \in acts }
+
+LawSel == IF "FS_LAWS" \in DOMAIN IOEnv THEN IOEnv.FS_LAWS ELSE "all"
 Inv == /\ WellFormed(L)
-       /\ MutationLaws /\ WriteLaws /\ CreateDirLaws /\ QueryLaws /\ ListLaws
+       /\ LawSel \in {"all", "c12"} => MutationLaws /\ WriteLaws /\ CreateDirLaws /\ QueryLaws
+       /\ LawSel \in {"all", "c13"} => ListLaws
+       /\ LawSel \in {"all", "c14"} => TwinLaws
 
 \* --- step property: whatever happens, the lower layers stay as they are
 LowerLayersStep == [][/\ Len(L') = Len(L)
